@@ -1,6 +1,7 @@
 mod c01;
 mod c04;
 mod c09;
+mod c14;
 mod cjs;
 mod cpair;
 mod csem;
@@ -27,8 +28,10 @@ fn check_by_id(id: &str) -> Option<Arc<dyn Check>> {
         "C07" => Arc::new(csem::C07),
         "C08" => Arc::new(cpair::C08),
         "C09" => Arc::new(c09::C09),
+        "C10" => Arc::new(c09::C10),
         "C11" => Arc::new(cjs::C11),
         "C13" => Arc::new(cpair::C13),
+        "C14" => Arc::new(c14::C14),
         "C15" => Arc::new(cpair::C15),
         "C12" => Arc::new(cjs::C12),
         _ => return None,
